@@ -78,10 +78,23 @@ func enumerateFaults(c *Case, run func(w io.Writer) error) {
 		kind := faultErrors[(int(idSeed(c.ID)%uint64(len(faultErrors)))+k/7)%len(faultErrors)] // one kind for a stretch of fault points
 		w := &faultWriter{k: k, err: kind}
 		l := letter(safeRun(15*time.Second, func() (string, error) { return "", run(w) }))
+		if l == 'H' {
+			// not finished within the limit: once more with the identical fault (a hang of the code repeats, a pause of
+			// the machine does not)
+			c.Tag("timeout-retried")
+			w = &faultWriter{k: k, err: kind}
+			l = letter(safeRun(30*time.Second, func() (string, error) { return "", run(w) }))
+		}
 		if l == 'E' {
 			// the same fault point again, but only this one write fails: a later successful write must not hide it
 			w1 := &faultWriter{k: k, once: true, err: kind}
-			if l1 := letter(safeRun(15*time.Second, func() (string, error) { return "", run(w1) })); l1 != 'E' {
+			l1 := letter(safeRun(15*time.Second, func() (string, error) { return "", run(w1) }))
+			if l1 == 'H' {
+				c.Tag("timeout-retried")
+				w1 = &faultWriter{k: k, once: true, err: kind}
+				l1 = letter(safeRun(30*time.Second, func() (string, error) { return "", run(w1) }))
+			}
+			if l1 != 'E' {
 				l = l1
 				transient = append(transient, fmt.Sprint(k))
 			}
